@@ -798,6 +798,7 @@ func freshMembershipIn(p *load.Prog, r *oblig.Report, rule string, info *types.I
 		return true
 	})
 	// membership tested in a set that is looked up in another table (a cache kept beside the live object)
+	judgedSets := map[types.Object]bool{}
 	ast.Inspect(fnBody, func(nd ast.Node) bool {
 		ix, ok := nd.(*ast.IndexExpr)
 		if !ok {
@@ -844,6 +845,75 @@ func freshMembershipIn(p *load.Prog, r *oblig.Report, rule string, info *types.I
 			return true
 		}
 		if _, fromTable := ast.Unparen(src).(*ast.IndexExpr); !fromTable {
+			// a local set made empty here: the names tested and accepted are added to it, and nothing else
+			fresh := false
+			switch x := ast.Unparen(src).(type) {
+			case *ast.CompositeLit:
+				fresh = len(x.Elts) == 0
+			case *ast.CallExpr:
+				if mid, isMk := x.Fun.(*ast.Ident); isMk && mid.Name == "make" {
+					fresh = true
+				}
+			}
+			if !fresh || judgedSets[obj] {
+				return true
+			}
+			// this occurrence must be a read (a test), not the left-hand side of the update
+			isRead := true
+			ast.Inspect(fnBody, func(m ast.Node) bool {
+				if as, isAs := m.(*ast.AssignStmt); isAs {
+					for _, l := range as.Lhs {
+						if l == ast.Expr(ix) {
+							isRead = false
+						}
+					}
+				}
+				return true
+			})
+			if !isRead {
+				return true
+			}
+			judgedSets[obj] = true
+			tested := types.ExprString(ix.Index)
+			other := ""
+			adds := 0
+			ast.Inspect(fnBody, func(m ast.Node) bool {
+				switch y := m.(type) {
+				case *ast.AssignStmt:
+					for _, l := range y.Lhs {
+						lix, isIx := ast.Unparen(l).(*ast.IndexExpr)
+						if !isIx {
+							if lid, isL := l.(*ast.Ident); isL && info.Uses[lid] == obj {
+								other = p.Pos(y.Pos())
+							}
+							continue
+						}
+						if lid, isL := ast.Unparen(lix.X).(*ast.Ident); isL && info.Uses[lid] == obj {
+							if types.ExprString(lix.Index) == tested {
+								adds++
+							} else {
+								other = p.Pos(y.Pos())
+							}
+						}
+					}
+				case *ast.CallExpr:
+					if fid, isF := y.Fun.(*ast.Ident); isF && (fid.Name == "delete" || fid.Name == "clear") && len(y.Args) > 0 {
+						if aid, isA := ast.Unparen(y.Args[0]).(*ast.Ident); isA && info.Uses[aid] == obj {
+							other = p.Pos(y.Pos())
+						}
+					}
+				}
+				return true
+			})
+			n++
+			switch {
+			case other != "":
+				r.Bad(rule, "membership-set:"+id.Name, p.Pos(ix.Pos()), "the set "+id.Name+" a conflict is tested against is also changed at "+other+" in a way that is not the addition of the tested name: names merged earlier in the same run can be missed and a clash accepted silently")
+			case adds == 0:
+				r.Bad(rule, "membership-set:"+id.Name, p.Pos(ix.Pos()), "nothing is ever added to the set "+id.Name+" a conflict is tested against: a clash is accepted silently")
+			default:
+				r.OK(rule, "membership-set:"+id.Name, p.Pos(ix.Pos()), "accumulated-on-accept", "the set starts empty and accumulates exactly the names that were tested and accepted")
+			}
 			return true
 		}
 		n++
